@@ -55,7 +55,13 @@ def is_proj(t, name):
 
 
 def check_config(chk, prog, cfg, only=None):
-    """`only`: restrict to the IntoPortable impls of these self-type ADT paths (a property that depends on one conversion only)"""
+    """`only`: restrict to the IntoPortable impls of these self-type ADT paths (a property that depends on one conversion only).
+    Decided on symbolic runs (c02_sym); the term-shape version below is kept as `check_config_shapes` for reference and is not called."""
+    from . import c02_sym
+    return c02_sym.check(chk, prog, cfg, only=only)
+
+
+def check_config_shapes(chk, prog, cfg, only=None):
     chk.rule("R2.1", "every IntoPortable impl is a field-wise homomorphism: output field k is built from input field k "
              "(and the registry) by the transfer function of k's declared type; nothing else flows in, no adapter")
     chk.rule("R2.2", "TypeDef::into_portable is variant-preserving (arm V builds variant V through From<TypeDefV>)")
